@@ -216,6 +216,23 @@ pub fn run(ctx: &mut Ctx, replay: Option<&[String]>) {
     for (root, name) in [(Node::Col(0), "c0"), (Node::Row(0), "r0"), (Node::Col(1), "c1")] {
         ctx.emit(&format!("c11 {} {} inf", sm(&d5), name), &one(&d5, root, None), true, &["corpus-pendant-path-on-4-cycle"]);
     }
+    // wide graphs (hundreds of columns) whose cycles sit far from column 0, behind long acyclic stretches of columns: the global girth must
+    // not depend on how the scan over the columns is split up or reduced
+    for v in 0..ctx.scale(3, 12) {
+        let (nr, nc) = (150 + 7 * v, 300 + 131 * v);
+        let mut h = SparseMatrix::new(nr, nc);
+        for j in 0..nc { h.insert((j * 7 + v) % nr, j); }                 // every column one leaf edge: a forest of stars
+        let c0 = 140 + 37 * v + rng.below(100);                           // a cycle of length 4 + 2v through columns c0, c0+1, ...
+        let len = 2 + v % 3;
+        let rows: Vec<usize> = (0..len).map(|i| (c0 * 3 + i * 11) % nr).collect();
+        for i in 0..len { h.insert(rows[i], c0 + i); h.insert(rows[(i + 1) % len], c0 + i); }
+        for (root, name) in [(Node::Col(c0), format!("c{}", c0)), (Node::Col(0), "c0".to_string()), (Node::Row(rows[0]), format!("r{}", rows[0]))] {
+            for max in [None, Some(2 * len + 2), Some(2 * len)] {
+                let o = one(&h, root, max);
+                ctx.emit(&format!("c11 {} {} {}", sm(&h), name, max.map(|m| m.to_string()).unwrap_or("inf".into())), &o, true, &["wide-graph-cycle-behind-acyclic-columns"]);
+            }
+        }
+    }
     let maxd = ctx.scale(12, 20);
     for k in 0..ctx.scale(400, 40000) {
         let (h, fam) = gen_graph(&mut rng, if k % 5 == 0 { maxd } else { 7 });
